@@ -153,6 +153,25 @@ CHECKS = {
               "statement)."),
         technique="TLA+ trace specification (self-composition / non-interference) over recorded Assignment event digests",
     ),
+    "C10": dict(
+        category="exploration",
+        text=("The driver calls the field types of midnight-curves - BLS12-381 Fq and Fp, Jubjub Fr, secp256k1 Fp and Fq, "
+              "Curve25519 Fp and Scalar, BN254 Fq and Fr, and the quadratic extensions BLS12-381 Fp2 and BN254 Fq2 - on "
+              "boundary operand classes {0, 1, 2, 3, 5, p-1, p-2, 2^64+-1, 2^128-1, 2^192-1, (p+-1)/2, Montgomery R, R^2, "
+              "2^384 mod p, random}: add, sub, mul (by value and assigning), neg, square, cube, double, invert, batched "
+              "inversion, pow (constant-time and vartime, one- and two-limb exponents), sqrt (incl. embedded base-field "
+              "residues and non-residues in the extensions), parity, equality, canonical encodings (round trip, decoders at "
+              "p-2..p+2 and all-ones), reduction from 64 uniform bytes, published constants; about 16 700 calls logged with "
+              "integer arguments and results. Field_Trace recomputes every result over BigNat (Z/m; F_p[u]/(u^2+1)) and checks "
+              "the defining equations of the constants (two-adicity, generator a non-residue, root of unity of exact order "
+              "2^S, delta, zeta, 2^-1). BigNat's Java evaluator override is checked against the TLA+ definitions by evaluating "
+              "BigNat_SelfTest with and without it on every run."),
+        design_ref="DESIGN.md 4/C10",
+        note=("The specification is stateless here: TLC is the evaluator of the mathematical definition (DESIGN.md 1.2(D)). Not "
+              "covered: Fp6/Fp12 and the BN254 higher towers, Montgomery internals, from_uniform_bytes of the types that do not "
+              "implement FromUniformBytes<64>, operands beyond the fixed menus."),
+        technique="TLA+/TLC: PrimeField / quadratic-extension definitions over BigNat re-evaluate every recorded library call (trace validation)",
+    ),
     "C11": dict(
         category="exploration",
         text=("The driver calls midnight-curves on BLS12-381 G1, secp256k1, Jubjub (extended, affine and prime-subgroup "
